@@ -40,7 +40,7 @@ META = {
     'components_real': ['S3TapeCassette._get_id_prefixes / iter_recording_ids', 'S3BasicFacade.iter_keys last-modified predicate'],
     'components_stub': ['S3 bucket', 'clock'],
     'budgets': {'quick': {'seconds': 20}, 'thorough': {'seconds': 240}},
-    'required_probes': {'quick': ['grid_window'], 'thorough': ['grid_window', 'random_window', 'end_defaults_to_now', 'window_crosses_midnight_end_earlier_in_day']},
+    'required_probes': {'quick': ['grid_window'], 'thorough': ['grid_window', 'random_window', 'end_defaults_to_now', 'window_crosses_midnight_end_earlier_in_day', 'long_lived_cassette_lookup']},
 }
 
 
@@ -152,10 +152,45 @@ def random_windows(tape, clock):
     return run
 
 
+def long_lived(tape, clock):
+    """One reader cassette object lives through the whole history while the clock crosses midnights: the same
+    open-ended lookup is repeated after every save."""
+    run = Run(PROP)
+    store = C.Store('s3', key_prefix=tape.choice(['a', '', 'ab']), clock=clock, page_size=tape.choice([1000, 2]))
+    try:
+        now = T0 + datetime.timedelta(hours=tape.draw(24))
+        clock.set(now)
+        writer = store.open()
+        reader = store.open(read_only=True)
+        starts = [now - datetime.timedelta(hours=tape.draw(30)), now + datetime.timedelta(hours=tape.draw(10))]
+        recs = []
+        run.subruns = 0
+        for step in range(4 + tape.draw(10)):
+            now = now + datetime.timedelta(hours=tape.choice([1, 5, 11, 23, 30]), minutes=tape.choice([0, 17]))
+            clock.set(now)
+            r = writer.create_new_recording('OpA')
+            r.set_data('k', step)
+            r.add_metadata({'n': step})
+            writer.save_recording(r)
+            recs.append((now.replace(microsecond=0), r.id))
+            for start in starts:
+                if start <= now:
+                    run.subruns += 1
+                    run.probe('long_lived_cassette_lookup')
+                    check_window(run, reader, recs, start, None, now, 'long-lived cassette, step %d' % step)
+        run.say('long-lived reader, %d lookups, recordings at %s' % (run.subruns, [str(t) for t, _ in recs][:8]))
+        run.ev('long', [str(t) for t, _ in recs], [str(x) for x in starts], [v.signature for v in run.violations])
+    finally:
+        store.close()
+    return run
+
+
 def run_tape(tape):
     clock = seams.VClock(tick=0.0)
     with seams.deterministic(tape, clock=clock):
-        mode = tape.draw(3)
+        mode = tape.draw(4)
+        if mode == 3:
+            return long_lived(tape, clock)
         if mode == 1:
             return table_start(tape, clock, 'quick')
         if mode == 2:
@@ -169,5 +204,5 @@ def run_index(i, seed, tier, emit):
         t = Tape(seed, prefix=[1 if tier == 'quick' else 2, i])
         emit(safe_run_tape(mod, t), t)
         return
-    t = Tape(seed, prefix=[0])
+    t = Tape(seed, prefix=[0 if i % 2 else 3])
     emit(safe_run_tape(mod, t), t)
